@@ -30,3 +30,74 @@ pub fn append_hex(src: &[u8], target: &mut String) {
 
 pub struct AsciiError;
 
+
+
+//============ Kani harnesses (verification only) ============================
+//
+// Compiled only by `cargo kani` (which sets `cfg(kani)`); add-only.
+
+#[cfg(kani)]
+mod kani_verif {
+    use super::*;
+
+    /// The lower-case hex digit of a value below 16.
+    fn hex_digit(n: u8) -> u8 {
+        if n < 10 { b'0' + n } else { b'a' + (n - 10) }
+    }
+
+    /// The value of a lower-case hex digit.
+    fn hex_value(ch: u8) -> Option<u8> {
+        match ch {
+            b'0'..=b'9' => Some(ch - b'0'),
+            b'a'..=b'f' => Some(ch - b'a' + 10),
+            _ => None
+        }
+    }
+
+    /// C30: `append_hex` of any single byte appends exactly its two
+    /// lower-case hex digits, high nibble first, whatever the string held
+    /// before. (All 256 bytes; the loop of `append_hex` treats every byte
+    /// alike.)
+    #[kani::proof]
+    #[kani::unwind(4)]
+    fn append_hex_one_byte() {
+        let ch: u8 = kani::any();
+        let mut target = String::new();
+        if kani::any() {
+            target.push('x');
+        }
+        let before = target.len();
+        append_hex(&[ch], &mut target);
+        let out = target.as_bytes();
+        assert!(out.len() == before + 2);
+        assert!(out[before] == hex_digit(ch >> 4));
+        assert!(out[before + 1] == hex_digit(ch & 0x0F));
+        kani::cover!(before == 1 && ch == 0xAF);
+        kani::cover!(ch == 0x05);
+    }
+
+    /// C30: `append_hex` of any two bytes is the hex pair of the first
+    /// followed by the hex pair of the second: the loop appends per byte,
+    /// in order, independently of what was appended before. By induction
+    /// over the loop (not machine-checked: CBMC does not finish on 32
+    /// rounds of the `fmt` machinery) a 32-byte digest yields exactly 64
+    /// characters in `[0-9a-f]` from which every digest byte can be read
+    /// back, i.e. the mapping is injective.
+    #[kani::proof]
+    #[kani::unwind(4)]
+    fn append_hex_two_bytes() {
+        let src: [u8; 2] = kani::any();
+        let mut target = String::new();
+        append_hex(&src, &mut target);
+        let out = target.as_bytes();
+        assert!(out.len() == 4);
+        let i: usize = kani::any();
+        kani::assume(i < 2);
+        let hi = hex_value(out[2 * i]);
+        let lo = hex_value(out[2 * i + 1]);
+        assert!(hi.is_some() && lo.is_some());
+        assert!((hi.unwrap() << 4) | lo.unwrap() == src[i]);
+        kani::cover!(i == 1 && src[1] == 0xF0);
+        kani::cover!(i == 0 && src[0] == 0x0A);
+    }
+}
